@@ -183,7 +183,9 @@ def run(prog: Program, L: Ledger) -> None:
             # path leaving before the loop: must be the empty-due-list return
             empties += 1
             tests = [(n, lab) for n, lab in path if n.kind == "test"]
-            okp = bool(tests) and norm(tests[-1][0].ast) in (f"not {dname}", f"len({dname}) == 0", f"{dname} == []") and tests[-1][1] == "true"
+            due_names = {dname} | {n_.targets[0].id for n_ in walk_no_nested(ym.node) if isinstance(n_, ast.Assign) and len(n_.targets) == 1 and isinstance(n_.targets[0], ast.Name)
+                                   and isinstance(n_.value, ast.Name) and n_.value.id == dname}
+            okp = bool(tests) and any(norm(tests[-1][0].ast) in (f"not {dn}", f"len({dn}) == 0", f"{dn} == []") for dn in due_names) and tests[-1][1] == "true"
             L.check(okp, "M1", "yield_moves:early-return", f"{rel}:{tests[-1][0].lineno if tests else ym.node.lineno}",
                     "yield_moves returns without attempting although moves may be due", "a step with due moves performs no cycle", norm(tests[-1][0].ast) if tests else "")
     L.check(empties >= 1, "M1", "yield_moves:empty-due-list", ym.where, "no early exit when no move is due: choice() over an empty list raises", "step on which no move is due raises ValueError", "empty")
